@@ -291,6 +291,59 @@ def pretty_repr_registered(chk):
         P._default_config = saved
 
 
+def pretty_repr_after_late_registration(chk):
+    """...for registered types, whenever they were registered: instances of a class (and of its subclasses, alone and
+    nested) are shown BEFORE a printer is registered for the class / a base class / by name, and queried with
+    is_registered; afterwards pretty_repr must return what pformat returns."""
+    from checks.registry import registry_dict
+    PPm = common.pp_module('prettyprinter.prettyprinter')
+    n = 0
+    for how in ('base class by class', 'class itself', 'base class by name', 'base class by class, after queries'):
+        mod = 'verif_late_%d' % n
+        Base = type('Base', (), {'__module__': mod, '__init__': lambda self, v=1: setattr(self, 'v', v), '__repr__': P.pretty_repr})
+        Sub = type('Sub', (Base,), {'__module__': mod})
+        Sub2 = type('Sub2', (Sub,), {'__module__': mod})
+        printer = lambda v, ctx: P.pretty_call(ctx, type(v).__name__, v=v.v)  # noqa
+        try:
+            with warnings.catch_warnings():
+                warnings.simplefilter('ignore')
+                before = [repr(Sub(1)), P.pformat([Sub(2), Sub2(3)]), P.pformat({'k': Base(4)}), repr(Sub2(5))]
+                if 'queries' in how:
+                    for cls in (Base, Sub, Sub2):
+                        for cs in (False, True):
+                            P.is_registered(cls, check_superclasses=cs, check_deferred=True, register_deferred=False)
+                if how == 'class itself':
+                    for cls in (Base, Sub, Sub2):
+                        P.register_pretty(cls)(printer)
+                elif how == 'base class by name':
+                    P.register_pretty(mod + '.Base')(printer)
+                else:
+                    P.register_pretty(Base)(printer)
+            for x in (Sub(1), Sub2(5), Base(4)):
+                n += 1
+                desc = {'registered': how, 'type': type(x).__name__, 'shown_before_registration': before}
+                with warnings.catch_warnings(record=True) as wl:
+                    warnings.simplefilter('always')
+                    got = repr(x)
+                    want = P.pformat(x)
+                    inside = P.pformat([x])
+                msgs = [str(w.message)[:120] for w in wl]
+                expect = '%s(v=%d)' % (type(x).__name__, x.v)
+                if got != want or want != expect or inside != '[%s]' % expect or any('no pretty printer' in m for m in msgs):
+                    chk.violation('C18.pretty_repr', 'a printer registered (%s) after instances had been shown: pretty_repr '
+                                  'returns %r, pformat %r, inside a list %r (expected %r; warnings %r)'
+                                  % (how, got, want, inside, expect, msgs), desc)
+        except Exception as e:  # noqa
+            chk.violation('C18.pretty_repr', 'late registration (%s) raised %r' % (how, e), {'registered': how})
+        finally:
+            rd = registry_dict()
+            for cls in (Base, Sub, Sub2):
+                rd.pop(cls, None)
+            PPm._DEFERRED_DISPATCH_BY_NAME.pop(mod + '.Base', None)
+            PPm.pretty_dispatch._clear_cache()
+    chk.cov['evaluations'] += 3 * n
+
+
 def entry_points_narrow(chk):
     """The entry points at the narrow end of the settings (widths and ribbons of 1..6 columns, where empty containers
     are broken and lines without any text occur): pprint / cpprint (colour off) / PrettyPrinter write exactly what
@@ -374,6 +427,7 @@ def check_c18(chk, args):
     q = chk.tier == 'quick'
     rng = chk.rng
     pretty_repr_registered(chk)
+    pretty_repr_after_late_registration(chk)
     long_lived_printers(chk)
     entry_points_narrow(chk)
     table, texts = reference_table()
